@@ -10,6 +10,7 @@ import (
 	"io/fs"
 	"os"
 	"path/filepath"
+	"regexp"
 	"sort"
 	"strings"
 
@@ -237,6 +238,7 @@ func Normalize(dir string, overlay map[string][]byte, goarch string, baseline ma
 		}
 		var fset *token.FileSet
 		cands := map[*types.Func]*inlineCand{}
+		goCands := map[*types.Func]*inlineCand{}
 		packages.Visit(pkgs, nil, func(pk *packages.Package) {
 			if !IsProd(pk.PkgPath) || pk.TypesInfo == nil {
 				return
@@ -245,6 +247,17 @@ func Normalize(dir string, overlay map[string][]byte, goarch string, baseline ma
 			for _, f := range pk.Syntax {
 				for _, d := range f.Decls {
 					fd, ok := d.(*ast.FuncDecl)
+					if ok && !baseline[FuncDeclKey(pk.PkgPath, fd)] && fd.Body != nil && fd.Type.TypeParams == nil && fd.Name.Name != "init" && fd.Name.Name != "main" {
+						variadic := false
+						for _, fl := range fd.Type.Params.List {
+							if _, isE := fl.Type.(*ast.Ellipsis); isE {
+								variadic = true
+							}
+						}
+						if obj, isF := pk.TypesInfo.Defs[fd.Name].(*types.Func); isF && !variadic {
+							goCands[obj] = &inlineCand{decl: fd, obj: obj, pk: pk, file: f}
+						}
+					}
 					if !ok || baseline[FuncDeclKey(pk.PkgPath, fd)] || !inlinable(fd) {
 						continue
 					}
@@ -257,7 +270,7 @@ func Normalize(dir string, overlay map[string][]byte, goarch string, baseline ma
 				}
 			}
 		})
-		if len(cands) == 0 {
+		if len(cands) == 0 && len(goCands) == 0 {
 			break
 		}
 		edits := map[string][]edit{}
@@ -286,6 +299,52 @@ func Normalize(dir string, overlay map[string][]byte, goarch string, baseline ma
 					self, _ := pk.TypesInfo.Defs[fd.Name].(*types.Func)
 					visitStmtLists(fd.Body, func(list []ast.Stmt) {
 						for _, st := range list {
+							// `go f(args)` / `defer f(args)` with a new function f: the function literal it stands for
+							var gcall *ast.CallExpr
+							switch x := st.(type) {
+							case *ast.GoStmt:
+								gcall = x.Call
+							case *ast.DeferStmt:
+								gcall = x.Call
+							}
+							if gcall != nil {
+								gc := goCands[calleeFunc(pk.TypesInfo, gcall)]
+								if gc == nil || gc.pk != pk || gc.obj == self {
+									continue
+								}
+								missing, compatible := importsNeeded(pk.TypesInfo, gc.decl, f, pk)
+								if !compatible {
+									continue
+								}
+								es, ok := literalAt(pk, text, gcall, gc, src)
+								if !ok {
+									continue
+								}
+								overlap := false
+								for _, e := range es {
+									for _, o := range edits[fname] {
+										if e.start < o.end && o.start < e.end {
+											overlap = true
+										}
+									}
+								}
+								if overlap {
+									continue
+								}
+								edits[fname] = append(edits[fname], es...)
+								if len(missing) > 0 {
+									if addImports[fname] == nil {
+										addImports[fname] = map[string]string{}
+									}
+									for nm, pth := range missing {
+										addImports[fname][nm] = pth
+									}
+									pkgEnd[fname] = pk.Fset.PositionFor(f.Name.End(), false).Offset
+								}
+								n++
+								notes = append(notes, fmt.Sprintf("replaced the go/defer call of new function %s in %s by its function literal", FuncDeclKey(pk.PkgPath, gc.decl), FuncDeclKey(pk.PkgPath, fd)))
+								continue
+							}
 							call, neg := callOfStmt(st)
 							_ = neg
 							if call == nil {
@@ -440,6 +499,30 @@ func Normalize(dir string, overlay map[string][]byte, goarch string, baseline ma
 						return ' '
 					}, text[e.start:e.end])
 					text = append(append(append([]byte{}, text[:e.start]...), blank...), text[e.end:]...)
+				}
+				// imports that only the removed helpers used
+				for _, is := range f.Imports {
+					name := ""
+					path := strings.Trim(is.Path.Value, `"`)
+					if is.Name != nil {
+						name = is.Name.Name
+					} else if ip := pk.Imports[path]; ip != nil {
+						name = ip.Name
+					} else {
+						name = path[strings.LastIndex(path, "/")+1:]
+					}
+					if name == "_" || name == "." {
+						continue
+					}
+					a, b := pk.Fset.PositionFor(is.Pos(), false).Offset, pk.Fset.PositionFor(is.End(), false).Offset
+					rest := append(append([]byte{}, text[:a]...), text[b:]...)
+					if !regexp.MustCompile(`\b` + regexp.QuoteMeta(name) + `\.`).Match(rest) {
+						for i := a; i < b; i++ {
+							if text[i] != '\n' {
+								text[i] = ' '
+							}
+						}
+					}
 				}
 				cur[fname] = text
 			}
@@ -836,4 +919,73 @@ func inlineAt(pk *packages.Package, file *ast.File, text []byte, st ast.Stmt, ca
 		es = append(es, edit{off(call.Pos()), off(call.End()), strings.Join(rnames, ", ")})
 	}
 	return es, true
+}
+
+// literalAt rewrites the call f(args) of a go/defer statement into func(recv R, p0 T0, ...) results { body }(recv, args):
+// the same statement with the function written out as a literal (arguments are still evaluated at the statement).
+func literalAt(pk *packages.Package, text []byte, call *ast.CallExpr, c *inlineCand, src func(string) []byte) ([]edit, bool) {
+	fset := pk.Fset
+	off := func(p token.Pos) int { return fset.PositionFor(p, false).Offset }
+	helperFile := fset.PositionFor(c.decl.Pos(), false).Filename
+	htext := src(helperFile)
+	hslice := func(a, b token.Pos) string { return string(htext[off(a):off(b)]) }
+	cslice := func(a, b token.Pos) string { return string(text[off(a):off(b)]) }
+	sig := c.obj.Type().(*types.Signature)
+	var params, args []string
+	if c.decl.Recv != nil {
+		sel, ok := call.Fun.(*ast.SelectorExpr)
+		if !ok || len(c.decl.Recv.List) != 1 {
+			return nil, false
+		}
+		rf := c.decl.Recv.List[0]
+		name := "_"
+		if len(rf.Names) == 1 {
+			name = rf.Names[0].Name
+		}
+		rexpr := cslice(sel.X.Pos(), sel.X.End())
+		if tv, ok := pk.TypesInfo.Types[sel.X]; ok {
+			_, argPtr := tv.Type.Underlying().(*types.Pointer)
+			_, recvPtr := sig.Recv().Type().(*types.Pointer)
+			if recvPtr && !argPtr {
+				rexpr = "&(" + rexpr + ")"
+			} else if !recvPtr && argPtr {
+				rexpr = "*(" + rexpr + ")"
+			}
+		}
+		params = append(params, name+" "+hslice(rf.Type.Pos(), rf.Type.End()))
+		args = append(args, rexpr)
+	} else if _, isSel := call.Fun.(*ast.SelectorExpr); isSel {
+		return nil, false
+	}
+	if call.Ellipsis.IsValid() {
+		return nil, false
+	}
+	for _, f := range c.decl.Type.Params.List {
+		typ := hslice(f.Type.Pos(), f.Type.End())
+		if len(f.Names) == 0 {
+			params = append(params, "_ "+typ)
+		}
+		for _, nm := range f.Names {
+			params = append(params, nm.Name+" "+typ)
+		}
+	}
+	for _, a := range call.Args {
+		args = append(args, cslice(a.Pos(), a.End()))
+	}
+	if len(params) != len(args) {
+		return nil, false
+	}
+	results := ""
+	if c.decl.Type.Results != nil && len(c.decl.Type.Results.List) > 0 {
+		results = " " + hslice(c.decl.Type.Results.Pos(), c.decl.Type.Results.End())
+	}
+	hpos := fset.PositionFor(c.decl.Body.Lbrace, false)
+	cpos := fset.PositionFor(call.End(), false)
+	var b strings.Builder
+	b.WriteString("func(" + strings.Join(params, ", ") + ")" + results + " {\n")
+	fmt.Fprintf(&b, "//line %s:%d\n", hpos.Filename, hpos.Line)
+	b.Write(htext[off(c.decl.Body.Lbrace)+1 : off(c.decl.Body.Rbrace)])
+	fmt.Fprintf(&b, "\n//line %s:%d\n", cpos.Filename, cpos.Line)
+	b.WriteString("}(" + strings.Join(args, ", ") + ")")
+	return []edit{{off(call.Pos()), off(call.End()), b.String()}}, true
 }
